@@ -6,4 +6,10 @@ type Element[K comparable, V any] struct {
 	value V
 	prev  *Element[K, V]
 	next  *Element[K, V]
+
+	// deleted is set when the element is removed by Delete, generation is the number of Clear calls the map had seen when
+	// the element was created. A removed element keeps its links, so that an iteration that currently visits it can go
+	// on; the iteration uses these fields to skip neighbours that were removed as well.
+	deleted    bool
+	generation uint64
 }
